@@ -178,6 +178,10 @@ func c07Run(out *verifx.Out, cs *c07Stack, k int, seed uint64, p *c07Plan) {
 	if p.ver == "E" || p.ver == "S" {
 		c.exec("op ver " + b + " E")
 	}
+	if p.hasInit && p.initEarly && p.initDM {
+		// the null version written before versioning stays underneath the delete marker
+		c.exec(fmt.Sprintf("op del %s %s vid=~ im=~", b, key))
+	}
 	if p.hasInit && !p.initEarly {
 		c.exec(fmt.Sprintf("op put %s %s %s ct=~ md=~ tags=~ cls=~ inm=0 im=~", b, key, verifx.Hex(p.init)))
 		if p.initDM {
@@ -268,12 +272,18 @@ func c07Exec(ctx context.Context, st storage.Storage, bucket storage.BucketName,
 		o.imUsed = "~"
 	}
 	off := o.off
-	if off == "@prev" {
+	if strings.HasPrefix(off, "@prev") {
+		n := int64(0)
 		if *lastSize >= 0 {
-			off = strconv.FormatInt(*lastSize, 10)
-		} else {
-			off = "0"
+			n = *lastSize
 		}
+		switch off {
+		case "@prev-1":
+			n = max(0, n-1)
+		case "@prev+1":
+			n++
+		}
+		off = strconv.FormatInt(n, 10)
 	}
 	o.offUsed = off
 	if o.offUsed == "" {
@@ -498,6 +508,45 @@ func c07Directed() []*c07Plan {
 			}
 			plans = append(plans, p)
 		}
+		// (6) known finding C07.inm.refused-on-absent-key-hidden-null-version: a null version written
+		// before versioning was enabled, deleted while enabled (delete marker on top), bucket then
+		// suspended: the key is absent, yet every If-None-Match write is refused
+		{
+			g := &c07Gen{r: verifx.NewRng(76)}
+			p := &c07Plan{stack: stack, ver: "S", kind: "inmrace", hasInit: true, initEarly: true, initDM: true}
+			p.init = g.body()
+			p.uploads = append(p.uploads, [][]byte{g.body()})
+			for gi := 0; gi < 3; gi++ {
+				o := g.op(gi, "put")
+				o.body, o.inm = g.body(), true
+				if gi == 2 {
+					o = g.op(gi, "cmpl")
+					o.up, o.inm = 0, true
+				}
+				p.progs = append(p.progs, []*c07Op{o})
+			}
+			plans = append(plans, p)
+		}
+		// (5) write offsets one byte off the current size must be refused (C12)
+		{
+			g := &c07Gen{r: verifx.NewRng(75)}
+			p := &c07Plan{stack: stack, ver: "off", kind: "append", hasInit: true}
+			p.init = g.body()
+			for gi := 0; gi < 2; gi++ {
+				var pr []*c07Op
+				for i, off := range []string{strconv.Itoa(len(p.init) - 1), strconv.Itoa(len(p.init) + 1), "~", "@prev-1", "@prev+1", "@prev"} {
+					o := g.op(gi, "app")
+					o.body = g.body()
+					o.off = off
+					if gi == 1 && i == 2 {
+						o = g.op(gi, "head")
+					}
+					pr = append(pr, o)
+				}
+				p.progs = append(p.progs, pr)
+			}
+			plans = append(plans, p)
+		}
 	}
 	return plans
 }
@@ -635,12 +684,16 @@ func c07Generate(seed uint64, tier string) *c07Plan {
 			mkApp := func() *c07Op {
 				o := g.op(gi, "app")
 				o.body = g.body()
-				switch x := r.Intn(10); {
-				case x < 6:
-				case x < 8:
+				switch x := r.Intn(20); {
+				case x < 10:
+				case x < 13:
 					o.off = "@prev"
-				case x < 9:
+				case x < 15: // one byte off the size this goroutine last saw
+					o.off = verifx.Pick(r, []string{"@prev-1", "@prev+1"})
+				case x < 17:
 					o.off = strconv.Itoa(len(p.init))
+				case x < 19: // one byte off the initial size
+					o.off = strconv.Itoa(max(0, len(p.init)+2*r.Intn(2)-1))
 				default:
 					o.off = strconv.Itoa(r.Intn(40))
 				}
